@@ -1,0 +1,21 @@
+//go:build verif
+// +build verif
+
+// Contracts for the deductive verifier in /verif (govc). Comment-only: no executable code.
+package reverseproxy
+
+//@ const bodyKept = outreq != nil && (outreq.Body == nil ==> outreq.ContentLength == 0)
+
+//@ func removeConnectionHeaders props C04
+//@   modifies h[*]
+//@   loop 0: invariant [other_maps] forall m2 map[string][]string :: {mapdom(m2)} {mapval(m2)} m2 != h ==> mapdom(m2) == old(mapdom(m2)) && mapval(m2) == old(mapval(m2))
+//@   loop 1: invariant [other_maps] forall m2 map[string][]string :: {mapdom(m2)} {mapval(m2)} m2 != h ==> mapdom(m2) == old(mapdom(m2)) && mapval(m2) == old(mapval(m2))
+
+//@ func (*ReverseProxy).ServeHTTP props C04
+//@   requires [incoming] req != nil && req.Body != nil && p.Director != nil
+//@   modifies *
+//@   loop 0: invariant [body_kept] bodyKept
+//@   loop 1: invariant [t] true
+//@   loop 2: invariant [t] true
+//@   loop 3: invariant [t] true
+//@   loop 4: invariant [t] true
